@@ -304,3 +304,41 @@ pub use self::text::{TextTape, TextToken, TextWriter, TextWriterBuilder};
 pub use self::{binary::de::BinaryDeserializer, text::de::TextDeserializer};
 #[cfg(feature = "derive")]
 pub use jomini_derive::*;
+
+/// Verification hooks: re-exports of crate-private helpers so that an external
+/// harness can compare them with a formal model. Compiled only with
+/// `--cfg jomini_verif`; nothing changes when the cfg is absent.
+#[cfg(jomini_verif)]
+pub mod verif_hooks {
+    pub use crate::buffer::{BufferError, BufferWindow, BufferWindowBuilder};
+    pub use crate::encoding::verif_hooks::trim_ascii_end;
+    pub use crate::text::verif_hooks::{
+        parse_quote_scalar, parse_quote_scalar_fallback, split_at_scalar,
+        split_at_scalar_fallback,
+    };
+
+    pub fn fast_digit_parse(val: u64) -> Option<u64> {
+        crate::util::fast_digit_parse(val)
+    }
+    pub fn contains_zero_byte(x: u64) -> bool {
+        crate::util::contains_zero_byte(x)
+    }
+    pub fn count_chunk(value: u64, byte: u8) -> u64 {
+        crate::util::count_chunk(value, byte)
+    }
+    pub fn leading_whitespace(value: u64) -> u32 {
+        crate::util::leading_whitespace(value)
+    }
+    pub fn repeat_byte(b: u8) -> u64 {
+        crate::util::repeat_byte(b)
+    }
+    pub fn is_boundary(b: u8) -> bool {
+        crate::data::is_boundary(b)
+    }
+    pub fn to_i64_t(d: &[u8]) -> Result<(i64, &[u8]), crate::ScalarError> {
+        crate::scalar::to_i64_t(d)
+    }
+    pub fn to_u64_t(d: &[u8], start: u64) -> Result<(u64, &[u8]), crate::ScalarError> {
+        crate::scalar::to_u64_t(d, start)
+    }
+}
